@@ -577,8 +577,9 @@ class PragmaRegionAttacher(Transformer):
         # Then recurse over the new nodes
         visited = tuple(self.visit(i, **kwargs) for i in o)
 
-        # Strip empty sublists/subtuples or None entries
-        return tuple(i for i in visited if i is not None and as_tuple(i))
+        # Strip empty sublists/subtuples or None entries, but keep the (possibly empty) entries
+        # of a nested tuple, such as the bodies of a multi-conditional
+        return tuple(v for i, v in zip(o, visited) if v is not None and (isinstance(i, tuple) or as_tuple(v)))
 
     visit_list = visit_tuple
 
@@ -631,8 +632,9 @@ class PragmaRegionDetacher(Transformer):
         # First recurse over the new nodes
         visited = tuple(self.visit(i, **kwargs) for i in o)
 
-        # Strip empty sublists/subtuples or None entries
-        return tuple(i for i in visited if i is not None and as_tuple(i))
+        # Strip empty sublists/subtuples or None entries, but keep the (possibly empty) entries
+        # of a nested tuple, such as the bodies of a multi-conditional
+        return tuple(v for i, v in zip(o, visited) if v is not None and (isinstance(i, tuple) or as_tuple(v)))
 
     visit_list = visit_tuple
 
